@@ -16,11 +16,12 @@
      wext w w'        = spent and signature tables of w' extend those of w (nothing removed or altered)
      same_but_calls   = nothing changed but the call counter
      settled w h      = the backend reports the own invoice with payment hash h as settled
+     ordered b a s p  = on every path of program p (for every response, so for every fault and cut) an event `a` is preceded by an event `b`
 
    ambiguous = any answer that is not a definitive success or failure; look_ambiguous w = every scripted lookup answer is ambiguous.
 *)
 From Coq Require Import ZArith List Bool.
-From Verif Require Import Model Sem InvDb InvSwap InvMint InvMelt Corollaries Queries Footprint HRel Global GlobalQuote GlobalValue GlobalErr GlobalQuery GlobalMelt GlobalKeys Cuts.
+From Verif Require Import Model Sem InvDb InvSwap InvMint InvMelt Corollaries Queries Footprint HRel Global GlobalQuote GlobalValue GlobalErr GlobalQuery GlobalMelt GlobalKeys Cuts CutOrder Conc Races GlobalBalance.
 Import ListNotations.
 Open Scope Z_scope.
 
@@ -78,7 +79,7 @@ Theorem C05_melt_tokens_spec : forall (cfg : config) (mem_ks : list ksrow) (id :
              exists q : lquote,
                find_lq id (d_lq (w_db w)) = Some q /\
                melt_validated mem_ks q ins w /\
-               match find (fun m : mquote => mq_hash m =? lq_hash q) (d_mq (w_db w)) with
+               match internal_mq q (w_db w) with
                | Some mq0 =>
                    exists pre : Z,
                      q' = with_state q 2 pre /\
